@@ -184,6 +184,11 @@ Example C03_pathname_example :
   r_norm (s_r (run true (init_sst (repr_of u) false) (flat_map cops [PEmpty; PPush (lit "x")] ++ [OCommitPath]))) = lit "non-spec:/.//x".
 Proof. cbv zeta. repeat split; try discriminate; vm_compute; reflexivity. Qed.
 
+Theorem C03_protocol_setter_repr : forall u file sch, scheme u <> [] -> sch <> [] ->
+  let s1 := run true (init_sst (repr_of u) file) [OStartScheme; OAppend sch; OSaveScheme] in
+  s_r s1 = repr_of (set_scheme u sch) /\ s_file s1 = is_file_str sch.
+Proof. exact protocol_setter_repr. Qed.
+
 (* non-vacuity of the record-level premises, and the theorems evaluated on http://h/p: username "u", then hash "f" *)
 Example C03_record_example :
   let u := mkurl (lit "http") [] [] (Some (HDomain (lit "h"))) None (PList [lit "p"]) None None in
@@ -228,5 +233,6 @@ Print Assumptions C03_port_clear_repr.
 Print Assumptions C03_pathname_pieces.
 Print Assumptions C03_pathname_setter_repr.
 Print Assumptions C03_pathname_example.
+Print Assumptions C03_protocol_setter_repr.
 Print Assumptions C03_record_example.
 Print Assumptions C03_pieces_example.
